@@ -205,3 +205,64 @@ s("C07", "kl-selects-hellinger", HDMF, '        elif divergence == "KL":\n      
 b(["C07", "C17"], "hellinger-square-rewrite", HDMF, "                np.sqrt(test_density[b] / t_length)\n                - np.sqrt(reference_density[b] / r_length)\n            ) ** 2", "                np.sqrt(reference_density[b] / r_length)\n                - np.sqrt(test_density[b] / t_length)\n            ) ** 2")
 b(["C07", "C17"], "beta-reassoc", HDMF, "beta = epsilon_hat + t_stat * (stdev / np.sqrt(d_scale))", "beta = t_stat * stdev / np.sqrt(d_scale) + epsilon_hat")
 b(["C07"], "avg-divide", HDMF, "self.current_distance = (1 / self._input_col_dim) * total_distance", "self.current_distance = total_distance / self._input_col_dim")
+
+# ---------------------------------------------------------------- C08
+KP = PA + "KDQTreePartitioner.py"
+s("C08", "fill-lt", KP, "        lower_data = data[data[:, axis] <= midpoint_at_axis]\n        total_points = upper_data.shape[0] + lower_data.shape[0]\n        # update by ID", "        lower_data = data[data[:, axis] < midpoint_at_axis]\n        total_points = upper_data.shape[0] + lower_data.shape[0]\n        # update by ID", "PARTITION")
+s("C08", "build-sides-swapped", KP, "            left=KDQTreeNode.build(\n                lower_data,", "            left=KDQTreeNode.build(\n                upper_data,", "AGREE-sides")
+s("C08", "correction-one", KP, "        hist = np.array(counts) + 0.5", "        hist = np.array(counts) + 1", "FRM")
+s("C08", "correction-len", KP, "        hist = hist / (total + len(hist) / 2)", "        hist = hist / (total + len(hist))", "FRM")
+s("C08", "midpoint-no-min", KP, "midpoint_at_axis = min_value_at_axis + (np.ptp(data[:, axis]) / 2)", "midpoint_at_axis = np.ptp(data[:, axis]) / 2", "FRM")
+s("C08", "recursion-same-depth", KP, "                lower_data, count_ubound, min_cutpoint_sizes, leaves, depth + 1\n", "                lower_data, count_ubound, min_cutpoint_sizes, leaves, depth\n", "FRM")
+s("C08", "stop-rule-lt", KP, "            n <= count_ubound\n", "            n < count_ubound\n", "GRD-stop")
+s("C08", "entropy-swapped", KP, "        distance = scipy.stats.entropy(hist1, hist2)", "        distance = scipy.stats.entropy(hist2, hist1)", "FRM")
+s("C08", "inner-always-overwrite", KP, "        else:\n            node.num_samples_in_compared_subtrees[tree_id] += total_points", "        else:\n            node.num_samples_in_compared_subtrees[tree_id] = total_points", "AGREE-branches")
+s("C08", "flatten-default-output", KP, "            tree_id2=tree_id2,\n            output=arr,\n", "            tree_id2=tree_id2,\n", "DEFAULT-ARG")
+s("C08", "fill-sides-swapped", KP, "        KDQTreeNode.fill(upper_data, node.right, count_ubound, tree_id, reset)\n        KDQTreeNode.fill(lower_data, node.left, count_ubound, tree_id, reset)", "        KDQTreeNode.fill(upper_data, node.left, count_ubound, tree_id, reset)\n        KDQTreeNode.fill(lower_data, node.right, count_ubound, tree_id, reset)", "AGREE-sides")
+s("C08", "fill-early-exit", KP, "        n = data.shape[0]\n        axis = node.axis\n", "        n = data.shape[0]\n        if n == 0 and tree_id in node.num_samples_in_compared_subtrees:\n            return\n        axis = node.axis\n", "MC")
+s("C08", "fill-reset-dropped", KP, "        KDQTreeNode.fill(lower_data, node.left, count_ubound, tree_id, reset)", "        KDQTreeNode.fill(lower_data, node.left, count_ubound, tree_id)", "FWD")
+s("C08", "kss-ref-max-for-test", KP, 'np.array([df["node_count_test"], test_max - df["node_count_test"]])', 'np.array([df["node_count_test"], ref_max - df["node_count_test"]])', "FRM")
+s("C08", "build-ge-mask", KP, "        upper_data = data[data[:, axis] > midpoint_at_axis]\n        lower_data = data[data[:, axis] <= midpoint_at_axis]\n        total_points = upper_data.shape[0] + lower_data.shape[0]\n        node = KDQTreeNode(", "        upper_data = data[data[:, axis] >= midpoint_at_axis]\n        lower_data = data[data[:, axis] <= midpoint_at_axis]\n        total_points = upper_data.shape[0] + lower_data.shape[0]\n        node = KDQTreeNode(", "PARTITION")
+s("C08", "leaf-not-recorded", KP, "            leaf = KDQTreeNode({\"build\": n}, None, None, None, None)\n            leaves.append(leaf)\n", "            leaf = KDQTreeNode({\"build\": n}, None, None, None, None)\n            if n > 0:\n                leaves.append(leaf)\n", "MC")
+s("C08", "countdiff-reversed", KP, "                        node.num_samples_in_compared_subtrees[tree_id2]\n                        - node.num_samples_in_compared_subtrees[tree_id1]", "                        node.num_samples_in_compared_subtrees[tree_id1]\n                        - node.num_samples_in_compared_subtrees[tree_id2]", "FRM")
+s("C08", "axis-not-cycling", KP, "        axis = depth % m\n", "        axis = min(depth, m - 1)\n", "FRM")
+b(["C08", "C18"], "build-mask-flip", KP, "        lower_data = data[data[:, axis] <= midpoint_at_axis]\n        total_points = upper_data.shape[0] + lower_data.shape[0]\n        node = KDQTreeNode(", "        lower_data = data[midpoint_at_axis >= data[:, axis]]\n        total_points = upper_data.shape[0] + lower_data.shape[0]\n        node = KDQTreeNode(")
+b(["C08"], "distn-rewrite", KP, "        hist = hist / (total + len(hist) / 2)", "        hist = hist / (0.5 * len(hist) + total)")
+b(["C08", "C18"], "fill-order-swapped", KP, "        KDQTreeNode.fill(upper_data, node.right, count_ubound, tree_id, reset)\n        KDQTreeNode.fill(lower_data, node.left, count_ubound, tree_id, reset)", "        KDQTreeNode.fill(lower_data, node.left, count_ubound, tree_id, reset)\n        KDQTreeNode.fill(upper_data, node.right, count_ubound, tree_id, reset)")
+
+# ---------------------------------------------------------------- C09
+KD = DD + "kdq_tree.py"
+s("C09", "quantile-alpha", KD, 'return np.quantile(critical_distances, 1 - self.alpha, method="nearest")', 'return np.quantile(critical_distances, self.alpha, method="nearest")', "POL")
+s("C09", "revert-fix5", KD, "                elif input_type == \"stream\":\n                    self._drift_counter = 0\n", "", "PAIR")
+s("C09", "draw-one-sample", KD, "size=2 * sample_size, p=ref_dist", "size=sample_size, p=ref_dist", "FRM")
+s("C09", "halves-overlap", KD, "b_hist2 = unique(b_sample[sample_size:], return_counts=True)", "b_hist2 = unique(b_sample[:sample_size], return_counts=True)", "PARTITION")
+s("C09", "decision-lt", KD, "                if test_dist > self._critical_dist:", "                if test_dist < self._critical_dist:", "GRD")
+s("C09", "fill-reset-stream", KD, 'reset=(input_type == "batch"))', 'reset=(input_type == "stream"))', "FRM")
+s("C09", "test-window-gt", KD, 'if input_type == "batch" or (self._test_data_size >= self.window_size):', 'if input_type == "batch" or (self._test_data_size > self.window_size):', "GRD")
+s("C09", "batch-drop-refdata", KD, "                        self.drift_state = \"drift\"\n                        self.ref_data = ary\n", "                        self.drift_state = \"drift\"\n", "PAIR")
+s("C09", "sample-size-swapped", KD, 'sample_size = self.window_size if input_type == "stream" else sum(ref_counts)', 'sample_size = sum(ref_counts) if input_type == "stream" else sum(ref_counts) // 2', "FRM")
+s("C09", "kl-ids-swapped", KD, 'test_dist = self._kdqtree.kl_distance(tree_id1="build", tree_id2="test")', 'test_dist = self._kdqtree.kl_distance(tree_id1="test", tree_id2="build")', "FRM")
+s("C09", "counter-accumulates", KD, "                        self._drift_counter += 1\n", "                        self._drift_counter += 2\n", "PAIR")
+s("C09", "ref-window-ge", KD, 'input_type == "stream" and len(self._ref_data) == self.window_size', 'input_type == "stream" and len(self._ref_data) >= self.window_size // 2', "GRD")
+s("C09", "bound-from-test-counts", KD, '        ref_counts = self._kdqtree.leaf_counts("build")', '        ref_counts = self._kdqtree.leaf_counts("test")', "FRM")
+s("C09", "reset-keeps-counter", KD, "        self._drift_counter = 0  # samples consecutively in the drift region", "        pass", "PAIR")
+b(["C09", "C17"], "decision-flip", KD, "                if test_dist > self._critical_dist:", "                if self._critical_dist < test_dist:")
+b(["C09", "C02", "C01"], "counter-reset-else", KD, "                elif input_type == \"stream\":\n                    self._drift_counter = 0\n", "                else:\n                    if input_type == \"stream\":\n                        self._drift_counter = 0\n")
+
+# ---------------------------------------------------------------- C10
+NS = PA + "NNSpacePartitioner.py"
+NV = DD + "nndvi.py"
+s("C10", "revert-fix10", NS, "        v1, v2 = inverted_indices[: len(sample1)], inverted_indices[len(sample1) :]", "        v1, v2 = np.array_split(inverted_indices, 2)", "PARTITION")
+s("C10", "denom-sum-v1", NS, "        denom = len(v1)\n", "        denom = sum(v1)\n", "FRM")
+s("C10", "denominator-one-sided", NS, "d_nnps = np.sum(np.abs(M_s1 - M_s2) / (M_s1 + M_s2))", "d_nnps = np.sum(np.abs(M_s1 - M_s2) / (M_s1))", ["FRM", "FRM-symmetry"])
+s("C10", "threshold-alpha", NV, "drift_threshold = norm.ppf(1 - alpha, mu, std)", "drift_threshold = norm.ppf(alpha, mu, std)", "POL")
+s("C10", "decision-lt", NV, "        if d_act > theta_drift:", "        if d_act < theta_drift:", "GRD")
+s("C10", "v2-shuffle-vtest", NV, "            v2_shuffle = 1 - v1_shuffle\n", "            v2_shuffle = v_test\n", "PARTITION")
+s("C10", "onehot-counts", NS, "        v1_onehot[v1] = 1.0\n", "        np.add.at(v1_onehot, v1, 1.0)\n", "FRM")
+s("C10", "build-order-swapped", NV, "        nnsp.build(self.reference_batch, test_batch)", "        nnsp.build(test_batch, self.reference_batch)", "FRM")
+s("C10", "unique-no-axis", NS, "D, inverted_indices = np.unique(data, axis=0, return_inverse=True)", "D, inverted_indices = np.unique(data, return_inverse=True)", "FRM")
+s("C10", "knn-fit-sample1", NS, "nn = NearestNeighbors(n_neighbors=self.k).fit(D)", "nn = NearestNeighbors(n_neighbors=self.k).fit(sample1)", "FRM")
+s("C10", "perm-of-test", NV, "            v1_shuffle = np.random.permutation(v_ref)", "            v1_shuffle = np.random.permutation(v_test)", "FRM")
+s("C10", "split-at-sample2", NS, "inverted_indices[: len(sample1)], inverted_indices[len(sample1) :]", "inverted_indices[: len(sample2)], inverted_indices[len(sample2) :]", "PARTITION")
+b(["C10", "C18"], "distance-abs-flip", NS, "d_nnps = np.sum(np.abs(M_s1 - M_s2) / (M_s1 + M_s2))", "d_nnps = np.sum(np.abs(M_s2 - M_s1) / (M_s2 + M_s1))")
+b(["C10", "C17"], "decision-flip", NV, "        if d_act > theta_drift:", "        if theta_drift < d_act:")
